@@ -87,4 +87,40 @@ example : edges (run true (deepCopy C10.demo) copyHist).1
     ∧ (run true (deepCopy C10.demo) copyHist).2 = [.ok, .ok, .ok, .rej] := by decide
 
 
+/-- **mixed histories**: calls on the originals and calls on the duplicates interleaved in any way (each call
+mentions nodes of one side only; any arguments, any hook faults, accepted or refused).  At the end the edges
+among the old nodes are - up to order - what the calls on the originals ALONE, with the outcomes they had,
+make of the original graph: the calls on the copy might as well not have happened. -/
+theorem dag_mixed_history (s : DStore) (hs : DWF s) (ops : List Op)
+    (hops : ∀ op ∈ ops, op.isConstruct = false ∧ (op.isLow s.n = true ∨ op.isHigh s.n = true)) :
+    (lowE s.n (edges (run true (deepCopy s) ops).1)).Perm
+      ((EState.mk (2 * s.n) (deepCopy s).names (edges s)).replay
+        ((ops.zip (run true (deepCopy s) ops).2).filter fun x => x.1.isLow s.n)).E := by
+  have hr := run_rel ops (deepCopy s) _ (dwf_deepCopy hs) (rel_estate _)
+    (noRejConstruct_of_noConstruct ops _ (fun op h => (hops op h).1))
+  have h1 := hr.perm.filter (fun e => decide (e.1 < s.n ∧ e.2 < s.n))
+  refine h1.trans ?_
+  have h2 := (replay_low_mixed s.n (ops.zip (run true (deepCopy s) ops).2) (estate (deepCopy s))
+    (sepE_edges_deepCopy hs.toDWF0) (fun x hx => hops x.1 (List.of_mem_zip hx).1)).1
+  show (lowE s.n _).Perm _
+  rw [h2]
+  have e : lowG s.n (estate (deepCopy s)) = EState.mk (2 * s.n) (deepCopy s).names (edges s) := by
+    simp only [lowG, estate]
+    rw [lowE_edges_deepCopy hs.toDWF0]
+    rfl
+  rw [e]
+
+def mixedHist : List Op :=
+  [.delChildren 4, .setChildren 3 (.list [0]) .none, .setParents 7 (.list [5, 4]) .none, .delItem 0 [],
+   .rshift 1 3 .none, .setChildren 6 (.list [4]) .post]
+
+example : (∀ op ∈ mixedHist, op.isConstruct = false ∧ (op.isLow C10.demo.n = true ∨ op.isHigh C10.demo.n = true)) := by
+  decide
+-- three calls accepted (one on the originals: 1 >> 3), three refused; low part = the low calls replayed alone
+example : edges (run true (deepCopy C10.demo) mixedHist).1
+      = [(0, 1), (0, 2), (1, 2), (1, 3), (2, 3), (4, 7), (5, 6), (5, 7), (6, 7)] ∧
+    ((EState.mk 8 (deepCopy C10.demo).names (edges C10.demo)).replay
+      ((mixedHist.zip (run true (deepCopy C10.demo) mixedHist).2).filter fun x => x.1.isLow 4)).E
+      = [(0, 1), (0, 2), (1, 2), (2, 3), (1, 3)] := by decide
+
 end C07Dag
